@@ -111,6 +111,12 @@ def gen_model(seed: int) -> Dict[str, Any]:
                 else:
                     e = {"c1": c1, "c2": c2, "kind": "angle", "angle": round(er.uniform(0.3, 1.2), 4), "axis": [round(x, 4) for x in _unit(er)]}
                 b.setdefault("edges", []).append(e)
+    # corners projected to a geometry by some of the operations that meet there (a projection is an
+    # attribute of the vertex, not part of its identity)
+    pj = Stream(seed, "projections", "C05")
+    if pj.chance(0.25):
+        model["projects"] = [{"target": b["name"], "corner": c, "label": pj.pick(["terrain", "terrain", "pipe"])}
+                             for b in blocks for c in range(8) if pj.chance(0.2)]
     fr = Stream(seed, "flips", "C05")
     if fr.chance(0.25):
         model["inverts"] = [b["name"] for b in blocks if fr.chance(0.5)] or [blocks[0]["name"]]
@@ -129,6 +135,11 @@ def make_program(model: Dict[str, Any], cfg_seed: int, identity: bool = False) -
             ops.append({"op": "chop", "target": b["name"], "axis": a, "args": {"count": 2}})
     for p in model["patches"]:
         ops.append({"op": "patch", "target": p["target"], "side": p["side"], "name": p["name"]})
+    if model.get("projects"):
+        for lab in sorted({pr["label"] for pr in model["projects"]}):
+            ops.append({"op": "geometry", "name": lab, "props": ["type triSurfaceMesh", f"name {lab}", f'file "{lab}.stl"']})
+        for pr in model["projects"]:
+            ops.append({"op": "project_corner", "target": pr["target"], "corner": pr["corner"], "label": pr["label"]})
     names = [b["name"] for b in model["blocks"]]
     order = list(names) if identity else cs.shuffled(names)
     merges = list(model["merges"]) if identity else cs.shuffled(model["merges"])
